@@ -234,6 +234,29 @@ def BeaconKeys.fromAesRand (c : Crypto) (r : Bytes) (iv : Bytes := defaultAesIv)
 def BeaconKeys.fromBeaconMetadata (c : Crypto) (m : Metadata) (iv : Bytes := defaultAesIv) : BeaconKeys :=
   BeaconKeys.fromAesRand c m.aes_rand iv
 
+/-! ### call histories
+
+The library keeps no state between calls: the answer to a call is a function of that call's own
+arguments (the key is part of the call).  A history is answered call by call. -/
+
+inductive Call
+  | decrypt (key : Crypto) (blob : Bytes)
+  | encrypt (key : Crypto) (m : Metadata) (r : Rand)
+  | derive (c : Crypto) (r : Bytes)
+
+inductive Answer
+  | metadata (r : Py Metadata)
+  | blob (r : PyS Bytes)
+  | keys (k : Bytes × Bytes)
+  deriving DecidableEq, Repr
+
+def answer : Call → Answer
+  | .decrypt key blob => .metadata (decryptMetadata key blob)
+  | .encrypt key m r => .blob (encryptMetadata key m r)
+  | .derive c r => .keys (deriveKeys c r)
+
+def runHistory (cs : List Call) : List Answer := cs.map answer
+
 /-! ### a toy instance of the primitives (identity "RSA" under real PKCS#1 v1.5 type-2 framing)
 
 It shows that `CryptoLaws` is satisfiable and is what the driver executes the round trip with. -/
